@@ -197,6 +197,40 @@ func acSeparatorCorner(add func(in interface{})) {
 	add(c)
 }
 
+// acInvalidUTF8: keywords and texts that are not valid UTF-8.  The matcher works on []rune: every offending
+// byte reads as U+FFFD, and a keyword holding one is stored under a spelling the automaton never reports -- it
+// is never found (Model/Index.v kw_found); the roaring container used to panic on that lookup.
+func acInvalidUTF8(add func(in interface{})) {
+	kw := func(f int, inc bool, ss ...string) eExpr {
+		l := make([]TV, len(ss))
+		for i, s := range ss {
+			l[i] = tvStr(s)
+		}
+		return eExpr{F: f, Inc: inc, V: tvSlice("[]string", l...)}
+	}
+	docs := []eDoc{
+		{ID: 1, Cons: []eConj{{kw(1, true, "\xff")}}},
+		{ID: 2, Cons: []eConj{{kw(1, true, "ab\xfe", "cd")}}},
+		{ID: 3, Cons: []eConj{{kw(1, false, "\xff", "q\xc3"), {F: 0, Inc: true, V: tvSlice("[]int", tvInt("int", 1))}}}},
+		{ID: 4, Cons: []eConj{{kw(1, true, "\uFFFD")}}},
+		{ID: 5, Cons: []eConj{{kw(1, true, "é")}}},
+		{ID: 6, Cons: []eConj{{kw(1, false, "\uFFFDz"), {F: 0, Inc: true, V: tvSlice("[]int", tvInt("int", 1))}}}},
+	}
+	var qs []eQuery
+	for _, t := range []TV{tvStr("\xff"), tvStr("ab\xfe"), tvStr("cd"), tvStr("\uFFFD"), tvStr("x\xfey"), tvStr("é"), tvStr("q\xc3"), tvStr("ab"),
+		tvStr("\xfez"), tvSlice("[]string", tvStr("\xff"), tvStr("cd")), tvList(tvStr("é"), tvStr("\xc3"))} {
+		qs = append(qs, eQuery{A: []eAssign{{F: 1, V: t}}}, eQuery{A: []eAssign{{F: 1, V: t}, {F: 0, V: tvInt("int", 1)}}})
+	}
+	for _, kind := range []string{"kgroups", "compact"} {
+		add(eCase{Kind: kind, Policy: "error", Configs: map[int]string{1: "ac_matcher"}, Docs: docs, Queries: qs})
+	}
+	c := rCase{Fields: []rField{{F: 0, Cont: "default"}, {F: 1, Cont: "ac_matcher"}}, Docs: docs}
+	for i, q := range qs {
+		c.Ops = append(c.Ops, rOp{S: 0, Op: "reset"}, rOp{S: 0, Op: []string{"retrieve", "docs"}[i%2], A: q.A}, rOp{S: 0, Op: "raw"})
+	}
+	add(c)
+}
+
 func init() {
 	props["C05"] = &propDef{
 		header:    "From BE Require Import Corr.CheckC05.",
@@ -209,6 +243,7 @@ func init() {
 				n = 5000
 			}
 			acSeparatorCorner(add)
+			acInvalidUTF8(add)
 			for i := 0; i < n; i++ {
 				acTwoPatternFields = i%4 == 1 || i%4 == 3 // two pattern fields: each must keep its own keywords
 				docs, qs := acDocsQueries(r, i%2 == 0)
